@@ -95,13 +95,14 @@ pub fn check(prop: &str, tier: &str) -> i32 {
             }
         }
         "C28" | "C31" | "C22" => {
-            rep.rule = format!("twin execution: the same seeded history (2-8 ops: transactions through transact / transact_commit / preverify / transact_preverified, {}) is applied to two systems and every result, returned state and the final committed state are compared; F1 database faults at drawn call indices{}; non-trivial if a transaction executed, distinct by the hash of (spec, op kinds, outcome classes)", match prop { "C28" => "observing inspector NoOp/Gas/EIP-3155/monitor vs no inspector", "C31" => "spec changes, block advances; one reused Evm vs a brand-new Evm around the same database for every op", _ => "modify_spec_id, with_spec_id, append/pop handler register, modify().build(); reward-off handler vs reward-on handler" }, if prop == "C31" { " and enumerated over every database call index of marked ops" } else { "" });
+            rep.rule = format!("twin execution: the same seeded history (2-8 ops: transactions through transact / transact_commit / preverify / transact_preverified, {}) is applied to two systems and every result, returned state and the final committed state are compared; F1 database faults at drawn call indices{}; non-trivial if a transaction executed, distinct by the hash of (spec, op kinds, outcome classes)", match prop { "C28" => "observing inspector NoOp/Gas/EIP-3155/monitor vs no inspector; the tracer's trace sink fails on a drawn schedule (F8: error, Interrupted, short write, Ok(0), flush error)", "C31" => "spec changes, block advances; one reused Evm vs a brand-new Evm around the same database for every op", _ => "modify_spec_id, with_spec_id, append/pop handler register, modify().build(); reward-off handler vs reward-on handler" }, if prop == "C31" { " and enumerated over every database call index of marked ops" } else { "" });
             if prop == "C31" {
                 rep.level = "fault_enumeration".into();
             }
             rep.real_components = strs(REAL_E1);
             rep.real_components.push("revm inspectors NoOpInspector, GasInspector, TracerEip3155 (C28)".into());
             rep.stub_components = strs(STUB_E1);
+            rep.stub_components.push("FaultyWriter (the tracer's trace sink, failing on schedule; C28)".into());
             rep.assumptions = vec!["spec changes stay on one side of Spurious Dragon (the state-clear flag of the database layers is the embedder's job)".into(), "C22: histories in which the beneficiary is a party of a transaction are not compared (the twins may legitimately diverge)".into()];
             rep.run_engine(&TwinSim { mode: prop.into() }, scale(tier, 200_000, 4_000_000), &findings);
             #[cfg(feature = "optimism")]
